@@ -316,6 +316,7 @@ def _progress_guard(pr, hdr, blocks, l):
         t = b.blocks[bb]["term"]
         if t["t"] == "call" and callee(t) in ("zvt_builder::encoding::Encoding::decode",) and \
                 cycles_broken_by(b, hdr, blocks, {bb}):
-            if codec_rules.progress_guard(b, pr.tr, hdr, blocks, l, bb):
+            if codec_rules.progress_guard(b, pr.tr, hdr, blocks, l, bb) or \
+                    codec_rules.progress_guard_replace(b, pr.tr, hdr, blocks, l, bb):
                 return True
     return False
